@@ -31,13 +31,14 @@ class CProcess:
     """one cdriver process = one loaded libopenwater.so; calls are fed one at a time because a hot start
     needs the states the previous call of that instance returned"""
 
-    def __init__(self):
+    def __init__(self, env=None):
         self.p = None
         self.starts = 0
+        self.env = env or GOENV
 
     def start(self):
         self.p = subprocess.Popen([CDRIVER, LIB], stdin=subprocess.PIPE, stdout=subprocess.PIPE, stderr=subprocess.DEVNULL,
-                                  text=True, bufsize=1, env=GOENV)
+                                  text=True, bufsize=1, env=self.env)
         self.starts += 1
 
     def call(self, line):
@@ -78,7 +79,7 @@ class Instance:
         self.nPS = rng.choice([1, self.N])
         self.nIS = rng.choice([1, self.N])
         g = _pgen(model, self.nPS, rng.randrange(1 << 30))
-        self.nP, self.phex = g['nP'], g['p_hex']
+        self.nP, self.phex = g['nP'], (g['p_hex'] or [])
         self.nI, self.nO, self.nS = g['n_inputs'], g['n_outputs'], g['state_width']
         self.dims = g['max_dims']
         self.windows = [rng.choice([1, 3, 5, 8]) for _ in range(4)]
@@ -171,7 +172,88 @@ def cabi_sessions(c):
                                                                'session': sess, 'call': what, 'case': line[:2000]})
         else:
             agree += 1
-    return {'cabi_sessions': n_sessions, 'cabi_session_calls': len(calls), 'cabi_session_hot_starts': hot,
+    stale_cov = stale_buffer_calls(c, rng, quick)
+    return {**stale_cov, 'cabi_sessions': n_sessions, 'cabi_session_calls': len(calls), 'cabi_session_hot_starts': hot,
             'cabi_session_calls_agree': agree, 'cabi_session_both_crash': both_crash,
             'cabi_session_cdriver_processes': proc.starts,
             'cabi_session_table_dimensions_seen': {m: sorted(map(list, v)) for m, v in dims_seen.items()}}
+
+
+def _stale_bits(off):
+    import struct
+    if off % 2 == 0:
+        return '%016x' % (0x7ff8dead00000000 | (off & 0xffff))
+    return f2h(3.25e300 + float(off % 1000) * 1e287)
+
+
+def stale_buffer_calls(c, rng, quick):
+    """Cold starts through the C entry point on caller buffers that are NOT zeroed (cdriver with
+    CDRIVER_STALE=1: outputs and the state buffer hold a NaN / huge-value pattern), with degenerate forcing
+    (all inputs zero, constant, random), for every catalogued model.  Compared with the Go API on fresh zero
+    arrays: a written element must be bit-identical; an element left untouched must be 0 in the reference;
+    and whether an output series is written must not depend on the inputs (same rule and finding keys as
+    tools/c04.py: wraplib.UnwrittenOutputs)."""
+    import wraplib
+    cat = json.loads(run_lines(CELLRUN, ['DESC'], env=GOENV)[0])['extra']
+    proc = CProcess(env=dict(GOENV, CDRIVER_STALE='1'))
+    calls = []
+    for m in sorted(cat):
+        if cat[m]['inputs'] == 0:
+            continue
+        for k, forcing in enumerate(('zero', 'rand', 'const') if quick else ('zero', 'rand', 'const', 'zero', 'rand', 'zero0')):
+            g = _pgen(m, 1, rng.randrange(1 << 30))
+            N, T = 2, 5
+            nI, nO, nS = g['n_inputs'], g['n_outputs'], g['state_width']
+            ins = []
+            for seq in range(N):
+                for j in range(nI):
+                    v0 = rng.random() * 10
+                    for t in range(T):
+                        x = 0.0 if forcing == 'zero' or (forcing == 'zero0' and j == 0) else v0 if forcing == 'const' else rng.random() * 10
+                        ins.append(f2h(x))
+            hdr = [m, N, nI, T, g['nP'], 1, N, nS, N, nO, T, 1]
+            line = ' '.join(map(str, hdr)) + ' ' + ' '.join(ins + (g['p_hex'] or []) + ['0' * 16] * (N * nS))
+            calls.append((m, forcing, nO, T, N, line, proc.call(line)))
+    proc.close()
+    import hslib
+    res_go = hslib.run_filtered(OWRUN, ['V ' + x[5] for x in calls], 'CRASH', env=GOENV)
+    uw = wraplib.UnwrittenOutputs()
+    agree = skipped = 0
+    for (m, forcing, nO, T, N, line, rc), rg in zip(calls, res_go):
+        c.count(('cabi-stale', m, forcing), nontrivial=True)
+        bad_c, bad_g = (rc is None or not rc.startswith('OK')), not rg.startswith('OK')
+        if bad_c and bad_g:
+            skipped += 1
+            continue
+        if bad_c or bad_g:
+            c.violation('cabi_stale_%s.json' % m, {'kind': 'C entry point on non-zeroed caller buffers: one side fails', 'model': m, 'forcing': forcing,
+                                                   'case': line[:1500], 'c_abi': (rc or 'process died')[:300], 'go_api': rg[:300]})
+            continue
+        tc, tg = rc.split(), rg.split()
+        no = int(tc[2])
+        oc, og = tc[3:3 + no], tg[3:3 + no]
+        unwritten = [0] * nO
+        problems = []
+        for off in range(no):
+            k = (off // T) % nO
+            if oc[off] == _stale_bits(off):
+                unwritten[k] += 1
+                if og[off] != '0' * 16:
+                    problems.append('output %d element %d: left untouched by the C call, the Go API on a fresh array gives %s' % (k, off, h2f(og[off])))
+            elif oc[off] != og[off]:
+                problems.append('output %d element %d: C %s, Go %s' % (k, off, h2f(oc[off]), h2f(og[off])))
+        if rc.split(' S ')[1].split(' C ')[0] != rg.split(' S ')[1].split(' C ')[0]:
+            problems.append('final states differ (a cold start must overwrite the whole caller state buffer)')
+        if rc.endswith(' C 0'):
+            problems.append('canary zones / inputs / parameters touched')
+        if problems:
+            c.violation('cabi_stale_%s.json' % m, {'kind': 'C entry point on non-zeroed caller buffers differs from the Go API on fresh arrays',
+                                                   'model': m, 'forcing': forcing, 'problems': problems[:8], 'case': line[:1500],
+                                                   'replay': 'echo "<case>" | CDRIVER_STALE=1 harness/bin/cdriver out/libopenwater.so'})
+        else:
+            agree += 1
+        uw.add('CDRIVER_STALE=1 ' + line[:600], {'model': m, 'unwritten_per_output': unwritten, 'elements_per_output': N * T})
+    cov = uw.report(c, 'C03')
+    return {'cabi_stale_buffer_calls': len(calls), 'cabi_stale_buffer_calls_agree': agree, 'cabi_stale_buffer_both_fail': skipped,
+            'cabi_' + 'outputs_never_written': cov['outputs_never_written_by_the_kernel'],
+            'cabi_' + 'outputs_written_only_on_some_inputs': cov['outputs_written_only_on_some_inputs']}
